@@ -54,15 +54,11 @@ class Addr:
         self.ip = maybe_ip_addr(ip)     # IPV4Address instance, or string
 
         if self.ip == '<error>':
+            self._cancel_expiry()
             self._expire()
             return
 
         fmt = "%Y-%m-%d %H:%M:%S"
-
-        # if we already have expiry times, etc then we want to
-        # properly delay our timeout
-
-        oldexpires = self.expires
 
         if gmtexpires.upper() == 'NEVER':
             # FIXME can I just select a date 100 years in the future instead?
@@ -71,24 +67,28 @@ class Addr:
             self.expires = datetime.datetime.strptime(gmtexpires, fmt)
         self.created = datetime.datetime.utcnow()
 
+        # (re-)schedule our expiry from the latest mapping only
+        self._cancel_expiry()
         if self.expires is not None:
-            if oldexpires is None:
-                if self.expires <= self.created:
-                    diff = datetime.timedelta(seconds=0)
-                else:
-                    diff = self.expires - self.created
-                self.expiry = self.map.scheduler.callLater(diff.seconds,
-                                                           self._expire)
-
+            if self.expires <= self.created:
+                diff = datetime.timedelta(seconds=0)
             else:
-                diff = self.expires - oldexpires
-                self.expiry.delay(diff.seconds)
+                diff = self.expires - self.created
+            self.expiry = self.map.scheduler.callLater(diff.total_seconds(),
+                                                       self._expire)
+
+    def _cancel_expiry(self):
+        if self.expiry is not None and self.expiry.active():
+            self.expiry.cancel()
+        self.expiry = None
 
     def _expire(self):
         """
         callback done via callLater
         """
-        del self.map.addr[self.name]
+        self.expiry = None
+        for k in [k for (k, v) in self.map.addr.items() if v is self]:
+            del self.map.addr[k]
         self.map.notify("addrmap_expired", *[self.name], **{})
 
 
